@@ -389,8 +389,10 @@ func ruleC10_3(c *Ctx, r *Rep) {
 			r.Check("C10.3", key, l.Header.Instrs[len(l.Header.Instrs)-1].Pos(), ok, "the loop over targets runs to the end", "a broadcast loop in "+what+" can be left early (return/break inside the loop): the remaining targets are never woken")
 		}
 	}
+	anchors := map[*ssa.Function]bool{}
 	for _, k := range []string{"actions.WakePublishListeners", "actions.wakeModifyListeners", "actions.WakeAllInternal"} {
 		if fn := r.Anchor("C10.3", k); fn != nil {
+			anchors[fn] = true
 			check(fn, k)
 		}
 	}
@@ -400,6 +402,32 @@ func ruleC10_3(c *Ctx, r *Rep) {
 		}
 		if _, isHook := commitHook(f); isHook {
 			check(f, "commit hook "+c.Key(f))
+		}
+	}
+	// private helpers of the notifier that close waiter channels in a loop (extracted from the wake functions)
+	for _, f := range c.Funcs {
+		if c.PkgOf(f) != "actions" || anchors[f] || c.testSupport(f) || isGenericOrigin(f) {
+			continue
+		}
+		closes := false
+		for _, b := range f.Blocks {
+			for _, in := range b.Instrs {
+				if call, ok := in.(*ssa.Call); ok {
+					if bi, ok := call.Call.Value.(*ssa.Builtin); ok && bi.Name() == "close" {
+						// a waiter taken from a set: the key of a range over a map
+						if ex, ok := strip(call.Call.Args[0]).(*ssa.Extract); ok {
+							if nx, ok := ex.Tuple.(*ssa.Next); ok {
+								if _, ok := nx.Iter.(*ssa.Range); ok {
+									closes = true
+								}
+							}
+						}
+					}
+				}
+			}
+		}
+		if closes && len(loopsOf(f)) > 0 {
+			check(f, c.Key(f))
 		}
 	}
 	// a hook that wakes per element of a captured id list must do so in a loop over that list
@@ -798,11 +826,14 @@ func ruleC10_6(c *Ctx, r *Rep) {
 func ruleC10_7(c *Ctx, r *Rep) {
 	n := 0
 	for _, k := range []string{"actions.WakePublishListeners", "actions.wakeModifyListeners", "actions.WakeAllInternal"} {
-		fn := r.Anchor("C10.7", k)
-		if fn == nil {
+		r.Anchor("C10.7", k)
+	}
+	for _, fn := range c.Funcs {
+		if c.PkgOf(fn) != "actions" || c.testSupport(fn) || isGenericOrigin(fn) || c.FnInControl(fn) {
 			continue
 		}
-		li := lockSets(fn)
+		k := c.Key(fn)
+		var li *lockInfo
 		idx := 0
 		for _, b := range fn.Blocks {
 			for _, in := range b.Instrs {
@@ -814,10 +845,8 @@ func ruleC10_7(c *Ctx, r *Rep) {
 				if !ok || bi.Name() != "close" {
 					continue
 				}
-				n++
-				idx++
 				ch := call.Call.Args[0]
-				// ch = key of a range over map W
+				// ch = key of a range over map W (a waiter set)
 				var w ssa.Value
 				if ex, ok := strip(ch).(*ssa.Extract); ok {
 					if nx, ok := ex.Tuple.(*ssa.Next); ok {
@@ -826,17 +855,27 @@ func ruleC10_7(c *Ctx, r *Rep) {
 						}
 					}
 				}
+				if w == nil {
+					continue // not a registered waiter taken from a set (a channel the function owns)
+				}
+				if li == nil {
+					li = lockSets(fn)
+				}
+				n++
+				idx++
 				removed := false
-				if w != nil {
-					for _, b2 := range fn.Blocks {
-						for _, in2 := range b2.Instrs {
-							d, ok := in2.(*ssa.Call)
-							if !ok {
-								continue
-							}
-							if dbi, ok := d.Call.Value.(*ssa.Builtin); !ok || dbi.Name() != "delete" {
-								continue
-							}
+				for _, b2 := range fn.Blocks {
+					for _, in2 := range b2.Instrs {
+						d, ok := in2.(*ssa.Call)
+						if !ok {
+							continue
+						}
+						dbi, ok := d.Call.Value.(*ssa.Builtin)
+						if !ok {
+							continue
+						}
+						switch dbi.Name() {
+						case "delete":
 							// delete(W, ch) after the close in the same iteration
 							if d.Call.Args[0] == w && strip(d.Call.Args[1]) == strip(ch) && instrDominates(call, d) {
 								removed = true
@@ -845,16 +884,59 @@ func ruleC10_7(c *Ctx, r *Rep) {
 							if parentOf(w) != nil && valKey(d.Call.Args[0]) == valKey(parentOf(w)) && reachable(call.Block(), d.Block(), nil, true) {
 								removed = true
 							}
+						case "clear":
+							// or the set is emptied as a whole once the loop is done (every path from the close gets there)
+							if d.Call.Args[0] == w && reachable(call.Block(), d.Block(), nil, true) && mustReach(call.Block(), d.Block()) {
+								removed = true
+							}
+							// or the parent map that holds the set is emptied as a whole afterwards
+							if parentOf(w) != nil && valKey(d.Call.Args[0]) == valKey(parentOf(w)) && reachable(call.Block(), d.Block(), nil, true) && mustReach(call.Block(), d.Block()) {
+								removed = true
+							}
 						}
 					}
 				}
 				held := li.heldAt(call)
 				r.Check("C10.7", fmt.Sprintf("C10.7:close#%d@%s", idx, k), call.Pos(), removed && held["g:nmu"], "closed channels leave the waiter set under the same lock",
-					"a waiter channel is closed but stays registered: the next wake-up closes it again and the process panics")
+					"a waiter channel is closed but stays registered (or is closed outside the notifier lock): the next wake-up closes it again and the process panics")
 			}
 		}
 	}
-	r.Floor("C10.7", n, 3)
+	r.Floor("C10.7", n, 2)
+}
+
+// mustReach: every path from block `from` to a function exit passes block `to` (to post-dominates from).
+func mustReach(from, to *ssa.BasicBlock) bool {
+	seen := map[*ssa.BasicBlock]bool{}
+	ok := true
+	var walk func(b *ssa.BasicBlock)
+	walk = func(b *ssa.BasicBlock) {
+		if !ok || seen[b] || b == to {
+			return
+		}
+		seen[b] = true
+		if len(b.Succs) == 0 {
+			// an exit reached without passing `to` (panics do not count)
+			if len(b.Instrs) > 0 {
+				if _, isPanic := b.Instrs[len(b.Instrs)-1].(*ssa.Panic); isPanic {
+					return
+				}
+			}
+			ok = false
+			return
+		}
+		for _, s := range b.Succs {
+			walk(s)
+		}
+	}
+	for _, s := range from.Succs {
+		walk(s)
+	}
+	return ok
+}
+
+func isGenericOrigin(f *ssa.Function) bool {
+	return f.TypeParams().Len() > 0 && len(f.TypeArgs()) == 0
 }
 
 // parentOf: for an inner map obtained by lookup or as a range value, the outer map.
